@@ -6,7 +6,7 @@ import os
 from .. import cases
 
 TITLE = "Alignment validity checks accept exactly partitions and covers"
-DECIDING = ["M-CHECK", "M-CHECK-SOFT", "M-CTOR", "M-ORDER", "M-CHECK-AFTER-EDIT"]
+DECIDING = ["M-CHECK", "M-CHECK-SOFT", "M-CTOR", "M-ORDER", "M-CHECK-AFTER-EDIT", "M-CHECK-SEQUENCE"]
 LEVEL = "exploration"
 RULE = ("seeded random continua up to 4x5 units (incl. identical units across annotators, unlabelled units) x candidate "
         "alignments: random valid partitions and near-valid mutants (unit dropped, whole unitary alignment dropped, unit "
@@ -14,7 +14,7 @@ RULE = ("seeded random continua up to 4x5 units (incl. identical units across an
         "foreign unit added once, all-empty unitary alignment added, one annotator named in two slots of a unitary alignment, "
         "the same unit twice in one unitary alignment, slots permuted, unitary alignments permuted, up to "
         "3 mutations combined), the alignment without any unitary alignment, and check / same-size edit of the continuum object (remove + add) / check "
-        "again histories, and continua / alignments built and pickled in another process under another hash seed, checked here against objects built "
+        "again histories, sequences of checks on one alignment object (against its own continuum, another one, without argument), and continua / alignments built and pickled in another process under another hash seed, checked here against objects built "
         "here; thorough tier also enumerates ALL partitions of tiny continua x every single mutation. "
         "Each candidate is judged by Alignment.check(), SoftAlignment.check(), both constructors with "
         "check_validity=True, check(continuum) with the continuum passed explicitly, before and after shuffling; the "
@@ -324,7 +324,44 @@ def check_cross_process(ctx, case):
             os.unlink(p_)
 
 
+def check_sequence_case(ctx, case):
+    """ONE alignment object (bound to its continuum C at construction) goes through a sequence of checks against C, against another
+    continuum D, and without argument: each outcome is the one the counts prescribe for the continuum that call is about."""
+    from pygamma_agreement.alignment import SetPartitionError
+    cspec, aspec = case["continuum"], case["alignment"]
+    C = cases.build_continuum(cspec)
+    D = cases.build_continuum(case["other"])
+
+    def outcome(fn):
+        try:
+            fn()
+            return "ok"
+        except SetPartitionError:
+            return "SetPartitionError"
+        except Exception as e:
+            return "other:" + type(e).__name__
+    cnt = counts_of(cspec, aspec)
+    exp_c = {False: all(c == 1 for c in cnt.values()), True: all(c >= 1 for c in cnt.values())}
+    exp_d = {False: False, True: False}        # D shares no unit with C: every unit of D is missing
+    for soft in (False, True):
+        al = cases.build_alignment(cspec, aspec, continuum=C, soft=soft)
+        mon = "M-CHECK-SOFT" if soft else "M-CHECK"
+        for step, what in enumerate(case["sequence"]):
+            got = outcome({"bound": lambda: al.check(), "C": lambda: al.check(C), "D": lambda: al.check(D)}[what])
+            want = "ok" if (exp_d if what == "D" else exp_c)[soft] else "SetPartitionError"
+            ctx.count(mon)
+            ctx.count("M-CHECK-SEQUENCE")
+            if got != want:
+                ctx.fail(("soft" if soft else "partition") + ":sequence-of-checks-on-one-alignment-object:" +
+                         ("accepted" if got == "ok" else ("rejected" if got == "SetPartitionError" else got.replace("other:", "raises-"))),
+                         {"step": step, "call": {"bound": "check()", "C": "check(C)", "D": "check(D)"}[what], "sequence": case["sequence"], "got": got, "expected": want},
+                         monitor=mon)
+                break
+
+
 def check_case(ctx, case):
+    if "sequence" in case:
+        return check_sequence_case(ctx, case)
     if "items" in case:
         return check_cross_process(ctx, case)
     if "edits" in case:
@@ -367,6 +404,21 @@ def run(ctx):
         case = {"continuum": cspec, "alignment": asp, "mutations": muts}
         ctx.begin_case(case)
         ctx.observe("mutations", "close-large-coordinates+" + muts[0])
+        check_case(ctx, case)
+    # one alignment object checked several times in a row against its own continuum, another one, its own again
+    for _ in range(ctx.scale(20, 400)):
+        n = rng.randint(2, 3)
+        cspec = cases.gen_continuum(rng, n_annot=n, max_units=3, min_total=2, allow_empty=False, family=rng.choice(["grid", "touching", "dyadic"]))
+        cspec["ann"] = {a: [list(u) for u in us] for a, us in cspec["ann"].items()}
+        other = {"ann": {a: [[u[0] + 5000.0, u[1] + 5000.0, u[2]] for u in us] for a, us in cspec["ann"].items()}}
+        asp = cases.random_partition_alignment(rng, cspec, p_join=0.5)
+        if rng.random() < 0.3:
+            asp = mutate(rng, cspec, asp, rng.choice(["drop-unit", "dup-unit"]))
+        if foreign_duplicates(cspec, asp):
+            continue
+        case = {"continuum": cspec, "other": other, "alignment": asp, "sequence": [rng.choice(["bound", "C", "D"]) for _ in range(rng.randint(3, 6))]}
+        ctx.begin_case(case)
+        ctx.observe("mutations", "sequence-of-checks-on-one-alignment-object")
         check_case(ctx, case)
     # objects that travelled between processes: built and pickled under another hash seed, checked here
     if ctx.shard % 2 == 0 or ctx.tier == "thorough":
